@@ -176,7 +176,10 @@ Section P_Conf.
     destruct (strdup_ok v Hv) as [a0 [E0 [C0 _]]]. rewrite E0. cbn [bind].
     destruct (to_upper_safe a0 v C0) as [a1 [d1 [E1 [_ [C1 _]]]]]. rewrite E1. cbn [bind]. rewrite C1. cbn [bind].
     pose proof (cstr_nonul _ _ _ C1) as N1. rewrite ok_cfg_guarded.
-    destruct (strip_prefix_safe (s_cfg_prefix c) (s_cfg_cmp_n c) (s_cfg_skip c) d1 N1 ok_cfg_prefix ok_cfg_skip) as [t [E2 [N2 _]]].
+    assert (ST : exists t, (if s_cfg_strips c then strip_prefix true (s_cfg_prefix c) (s_cfg_cmp_n c) (s_cfg_skip c) d1 else Ok d1) = Ok t /\ nonul t).
+    { destruct (s_cfg_strips c); [|eauto].
+      destruct (strip_prefix_safe (s_cfg_prefix c) (s_cfg_cmp_n c) (s_cfg_skip c) d1 N1 ok_cfg_prefix ok_cfg_skip) as [t [E2 [N2 _]]]. eauto. }
+    destruct ST as [t [E2 N2]].
     rewrite E2. cbn [bind]. destruct level.
     - destruct (level_name_safe t N2) as [r [E _]]. eauto.
     - destruct (facility_name_safe t N2) as [r [E _]]. eauto.
